@@ -1184,6 +1184,8 @@ class Client():
             self.connector.serviceConnect()
             if self.connector.connected:
                 if self.respondent:
+                    # .closed was about the previous connection
+                    self.respondent.closed = False
                     if self.respondent.evented and self.respondent.leid is not None:  # update Last-Event-ID header
                         self.requester.headers['Last-Event-ID'] = self.respondent.leid
                         self.connector.txbs.clear()  # remove any stale request leftovers
